@@ -177,7 +177,7 @@ class World:
         for fn in sorted(os.listdir(self.dir)):
             if fn.endswith('.vc'):
                 self.vc = parse_vc(os.path.join(self.dir, fn), self.vc)
-        self.counters = {k: 0 for k in ['R1', 'R2', 'R3', 'R4', 'R5', 'R6', 'A1', 'A2', 'A3', 'A4']}
+        self.counters = {k: 0 for k in ['R1', 'R2', 'R3', 'R4', 'R5', 'R6', 'R7', 'A1', 'A2', 'A3', 'A4']}
         self.fnmap = []       # per emitted fn: dict
         self.uncontracted = []
         self.used_contracts = set()
@@ -212,6 +212,7 @@ class World:
         out = Out()
         out.w('// GENERATED by /verif/vf/assemble.py from /repo -- do not edit.\n')
         out.w('#![allow(unused_imports, dead_code, unused_variables, unused_mut, unused_parens, non_snake_case, unused_braces, unused_assignments, unreachable_code, non_camel_case_types, unused_macros)]\n')
+        out.w('#![feature(slice_concat_trait)]\n')
         out.w('use vstd::prelude::*;\n')
         out.w(open(os.path.join(VERIF, 'shim', 'macros.rs')).read())
         for sh in self.cfg['shim']:
@@ -453,7 +454,7 @@ class World:
         body = apply_edits(src, it['start_no_attrs'], it['span'][1], edits).decode()
         # type substitutions requested by the contract file (R6 style path fixes)
         name = it['name']
-        derives = []
+        derives = ['#[derive(Debug)]']
         if 'structural' in optset:
             derives.append('#[derive(Structural, PartialEq, Eq)]')
         if 'copy' in optset:
@@ -719,6 +720,24 @@ class World:
                         pos = j + 1
             edits.append((pos, pos, ('\n' + text + '\n').encode()))
             self.counters['A4'] += 1
+        # R7 bind the receiver of an iterator method call so that a ghost hint can name it
+        for meth, n, text in c.binds:
+            calls = [cl for cl in it['calls'] if cl['kind'] == 'method' and cl['method'] == meth]
+            if n >= len(calls):
+                raise Inconclusive(f'lost anchor: {cname} has {len(calls)} calls of .{meth}(), contract binds #{n}')
+            cl = calls[n]
+            rs, re_ = cl['receiver']
+            cs, ce = cl['span']
+            ms = cl['method_span'][0]
+            # `RECV . meth(args)`  ->  `{ let mut vf_it = RECV; let ghost vf_rem = vf_it.remaining(); let vf_r = vf_it.meth(args); proof {..} vf_r }`
+            edits.append((rs, rs, b'{ let mut vf_it = '))
+            # the `.` between receiver and method name
+            dot = src.rfind(b'.', re_, ms + 1)
+            if dot < 0:
+                raise Inconclusive(f'lost anchor: cannot find the method dot of .{meth}() in {cname}')
+            edits.append((re_, dot + 1, b'; let ghost vf_rem = vf_it.remaining(); let vf_r = vf_it.'))
+            edits.append((ce, ce, ('; proof {\n' + text + '\n} vf_r }').encode()))
+            self.counters['R7'] += 1
         # R3 format!
         for mc in it['macros']:
             if mc['name'] == 'format' and mc['first_lit']:
